@@ -394,6 +394,11 @@ def load_patterns(filename):
                 occurrence = []
                 continue
             string_values = line.split(",")
+            if len(string_values) < 2:
+                raise ValueError(
+                    "Expected an 'onset, midi' pair but found a single "
+                    "column in {}:\n\t{}".format(filename, line)
+                )
             onset_midi = (float(string_values[0]), float(string_values[1]))
             occurrence.append(onset_midi)
 
